@@ -135,6 +135,33 @@ func c06New(typ string) ap.Item {
 	return &ap.Object{ID: "https://example.com/o/1", Type: ap.NoteType}
 }
 
+// values decoded by earlier round trips, kept alive: their text must still be what was written when
+// later documents have been decoded (a decoder must not hand out text that a later decode overwrites)
+type c06Kept struct {
+	got   ap.NaturalLanguageValues
+	want  [][2][]byte
+	where string
+}
+
+var c06KeptRing []c06Kept
+
+func c06CheckKept() string {
+	for _, k := range c06KeptRing {
+		for _, e := range k.want {
+			ok := false
+			for _, g := range k.got {
+				if bytes.Equal(g.Value, e[1]) {
+					ok = true
+				}
+			}
+			if !ok {
+				return fmt.Sprintf("%s: the text %q read back by an earlier round trip is no longer there after later decodes (now: %q)", k.where, e[1], k.got)
+			}
+		}
+	}
+	return ""
+}
+
 // c06RoundTrip: the direct oracle. pairs: [tag, text] entries ("-" = untagged). codec: json|gob.
 func c06RoundTrip(propIdx int, pairs [][2][]byte, codec string) string {
 	p := c06Props[propIdx]
@@ -179,6 +206,15 @@ func c06RoundTrip(propIdx int, pairs [][2][]byte, codec string) string {
 	}
 	if len(got) != len(pairs) {
 		return fmt.Sprintf("%s.%s: %d language values written, %d read back%s", p.typ, p.name, len(pairs), len(got), show)
+	}
+	if v := c06CheckKept(); v != "" {
+		return v
+	}
+	if codec == "json" {
+		c06KeptRing = append(c06KeptRing, c06Kept{got, pairs, p.typ + "." + p.name})
+		if len(c06KeptRing) > 6 {
+			c06KeptRing = c06KeptRing[1:]
+		}
 	}
 	for _, e := range pairs {
 		tag := string(e[0])
@@ -275,7 +311,7 @@ func c06Oracle(c *Ctx, propIdx int, pairs [][2][]byte, codec string) {
 
 func init() {
 	campaigns["C06"] = func(c *Ctx) {
-		c.Rule = "byte strings: a fixed list of 60 hard texts (backslash-bearing, escape look-alikes, JSON look-alikes, control characters, U+2028/9, astral code points, injection attempts) plus generated valid UTF-8 (printable ASCII, JSON-special and control bytes, escape-looking fragments, 2/3/4-byte code points incl. boundary code points, JSON tokens; lengths 1-12 and 40-240). (1) textWrite: NaturalLanguageValues.MarshalJSON of a single value vs the model's writeText, byte for byte (also malformed UTF-8); (2) textRead: the document {\"type\":\"Note\",\"name\":\"<raw>\"} with generated raw JSON string bodies (all escapes, surrogate pairs, unknown and truncated escapes, raw non-ASCII and control bytes) decoded by UnmarshalJSON vs the model's scan+unescape; (3) oracle: every text in every text-bearing property (name, summary, content, source content, preferred username; object, actor, activity, link) as a single value and in 2-3-entry language maps through the JSON and the gob round trip, compared byte for byte, tags included."
+		c.Rule = "byte strings: a fixed list of 60 hard texts (backslash-bearing, escape look-alikes, JSON look-alikes, control characters, U+2028/9, astral code points, injection attempts) plus generated valid UTF-8 (printable ASCII, JSON-special and control bytes, escape-looking fragments, 2/3/4-byte code points incl. boundary code points, JSON tokens; lengths 1-12 and 40-240). (1) textWrite: NaturalLanguageValues.MarshalJSON of a single value vs the model's writeText, byte for byte (also malformed UTF-8); (2) textRead: the document {\"type\":\"Note\",\"name\":\"<raw>\"} with generated raw JSON string bodies (all escapes, surrogate pairs, unknown and truncated escapes, raw non-ASCII and control bytes) decoded by UnmarshalJSON vs the model's scan+unescape; (3) oracle: every text in every text-bearing property (name, summary, content, source content, preferred username; object, actor, activity, link) as a single value and in 2-3-entry language maps through the JSON and the gob round trip, compared byte for byte, tags included; the last 6 decoded values are kept alive and their text re-read after every later decode."
 		nw := c.N(1500, 40000)
 		for i := 0; i < len(c06Fixed)+nw; i++ {
 			var s []byte
